@@ -44,9 +44,9 @@ FUNC_KINDS_T = {"NEG", "NOT", "PAREN", "OR", "AND", "CMP", "ADD", "MUL"}
 
 
 def consts(**kw):
-    c = dict(MaxOps=3, KindsM=ALL_KINDS, CmpOpsM={1}, LogSpM={2}, WithFunc=False, TypedM=False,
+    c = dict(MaxOps=3, KindsM=ALL_KINDS, CmpOpsM={1}, LogSpM={2}, WithFunc=False, WithList=False, TypedM=False,
              Ladder="lark", AndOrParens=True, CmpParens=True, OuterRule="matched", DenoteLadder="ms",
-             AllCmpOps=set(exprtok.CMP_OPS), RootCmpOps={i for i in exprtok.CMP_OPS if i <= 19}, AllLogSp={1, 2, 3}, AtomIds=set(exprtok.ATOMS),
+             AllCmpOps=set(exprtok.CMP_OPS), RootCmpOps={i for i in exprtok.CMP_OPS if i <= 19}, AllLogSp={1, 2, 3}, AtomIds=set(exprtok.ATOMS), ListIds=set(exprtok.LISTS), **exprtok.TRICKY,
              FuncIds=set(exprtok.FUNCS), MaxWalkOps=12, RootKindsS=set())
     c.update(kw)
     return c
@@ -62,19 +62,22 @@ def model_run(tag, invs, workers, timeout=3000, **kw):
 
 
 def model_jobs(quick):
-    """(name, kind, invariants, constants).  kind: contract (must hold) | lead (model of the current builders;
-    a violation is a lead) | negative (must be rejected)."""
-    mech = dict(OuterRule="startsends", TypedM=True)
+    """(name, kind, invariants, constants).  kind: contract (must hold; since the repair of transformer.expression
+    the contract rule is also the model of the current builders) | lead (a mechanism variant; a violation is a
+    lead that is replayed into the real code) | negative (must be rejected by TLC)."""
+    mech = dict(OuterRule="startsends", TypedM=True)     # the former quoter.in_parenthesis heuristic
     deep = dict(MaxOps=5, KindsM={"PAREN", "ADD", "MUL"})          # (((a) + (b)) * c) needs five nodes
     fk = FUNC_KINDS if quick else FUNC_KINDS_T
     jobs = [
         ("m_contract", "contract", CONTRACT_INVS, dict(MaxOps=3 if quick else 4)),
         ("m_contract_func", "contract", CONTRACT_INVS, dict(MaxOps=3, KindsM=fk, WithFunc=True)),
         ("m_contract_deep", "contract", CONTRACT_INVS, dict(deep)),
-        ("m_mech_wrapped", "lead", ["WrappedLead"], dict(MaxOps=3, **mech)),
-        ("m_mech_stable", "lead", ["StableLead"], dict(MaxOps=3, **mech)),
-        ("m_mech_regroup", "lead", ["NoRegroupLead"], dict(deep, **mech)),
-        ("m_mech_regroup_func", "lead", ["NoRegroupLead"], dict(MaxOps=3, KindsM=FUNC_KINDS, WithFunc=True, **mech)),
+        ("m_contract_list", "contract", CONTRACT_INVS,
+         dict(MaxOps=3, KindsM={"PAREN", "NEG", "CMP", "ADD"}, WithList=True)),
+        ("m_neg_wrapped", "negative", ["Wrapped"], dict(MaxOps=3, **mech)),
+        ("m_neg_stable", "negative", ["Stable"], dict(MaxOps=3, **mech)),
+        ("m_neg_regroup", "negative", ["NoRegroup"], dict(deep, **mech)),
+        ("m_neg_regroup_func", "negative", ["NoRegroup"], dict(MaxOps=3, KindsM=FUNC_KINDS, WithFunc=True, **mech)),
         ("m_neg_swapped", "negative", ["NoRegroup"], dict(MaxOps=2, Ladder="swapped")),
         # (with the contract's `expression` rule the parentheses and_test/or_test/comparison add are
         #  redundant; they matter together with the in_parenthesis heuristic of the current builders)
@@ -96,16 +99,16 @@ ROOT_GROUPS = [{"CMP"}, {"OR", "NOT"}, {"AND", "ADD", "SUB"}, {"MUL", "DIV", "PO
 
 
 def emit_shapes(ck, n, seed, tag, roots=None):
-    # (the emitted `norm` is the prediction of the model of the *current* builders: mechanism-drift note only)
+    # (the emitted `norm` is the prediction of the builder model: mechanism-drift note only)
     cfg = tlc.cfg_text(init="SInit", next_="SNext", invariants=["Emit"],
-                       constants=consts(MaxOps=n, OuterRule="startsends", RootKindsS=set(roots or ALL_KINDS | {"ATOM"})))
+                       constants=consts(MaxOps=n, RootKindsS=set(roots or ALL_KINDS | {"ATOM"})))
     r = tlc.run("Expr", cfg, tag=tag, workers=1, seed=seed, timeout=3000, heap="3g")
     ck.add_tlc(tag, r)
     return [p for p in r.prints if isinstance(p, dict) and "src" in p]
 
 
 def emit_walks(ck, num, seed, tag):
-    cfg = tlc.cfg_text(init="WInit", next_="WNext", constants=consts(OuterRule="startsends"), invariants=["Emit"])
+    cfg = tlc.cfg_text(init="WInit", next_="WNext", constants=consts(), invariants=["Emit"])
     r = tlc.run("Expr", cfg, tag=tag, mode="simulate", simulate="num=%d" % num, depth=80, workers=1, seed=seed,
                 timeout=3000, heap="3g")
     ck.add_tlc(tag, r)
@@ -200,6 +203,10 @@ def tok_text(t):
     c, i = t
     if c in ("LP", "RP", "COMMA"):
         return {"LP": "(", "RP": ")", "COMMA": ","}[c]
+    if c in ("LB", "RB"):
+        return "{" if c == "LB" else "}"
+    if c == "ELEM":
+        return exprtok.LIST_ELEMS.get(i, "elem%d" % i)
     if c == "ATOM":
         return exprtok.ATOMS.get(i) or exprtok.FUNC_ARGS.get(i) or "atom%d" % i
     if c == "FUNC":
@@ -254,6 +261,8 @@ def signature(v):
     if c == "spelling":
         if a == b and a in ("OR", "AND", "NOT", "CMP"):
             return "C10|operator-respelled|%s" % a.lower(), "operator spelling changed (%s)" % a
+        if a == b and a == "ELEM":
+            return "C10|operand-changed|list-element", "a list element is not kept verbatim"
         if a == b and a in ("ATOM", "FUNC"):
             return "C10|operand-changed|%s" % a.lower(), "operand text changed (%s)" % a
         if b == "-":
